@@ -681,6 +681,7 @@ type Guard struct {
 	RejCond Cond   // condition under which the block is rejected (valid if Reject != "")
 	Ctx     []Cond // conditions of the enclosing plain branches that must hold to reach this guard
 	CtxAway [][2]*ssa.BasicBlock // for each context branch, the edge that leads away from this guard
+	CtxBlock *ssa.BasicBlock // when the guard tests a short-circuit phi: the block that evaluated the deciding operand
 	Line    int
 	File    string
 }
@@ -722,6 +723,38 @@ func (fi *FuncInfo) collectGuards() {
 			g.Reject = "false"
 			g.RejCond = g.Cond.Negate()
 		}
+		// `case A && B:` / `x := A && B; if x` — go/ssa materialises the short-circuit as a boolean
+		// phi (B | false) and branches on it; an if/else-if chain branches directly. Both reject on B
+		// under the context of the block that evaluated B (which is where A held).
+		if ph, ok := ifi.Cond.(*ssa.Phi); ok && g.Reject != "" && len(ph.Edges) == len(b.Preds) && len(*ph.Referrers()) == 1 {
+			var vb *ssa.BasicBlock
+			var val ssa.Value
+			okShape := true
+			for i, ed := range ph.Edges {
+				if c, isC := ed.(*ssa.Const); isC && c.Value != nil {
+					isTrue := c.Value.String() == "true"
+					// && : constants are false and the true edge rejects; || : constants are true and the false edge rejects
+					if (g.Reject == "true" && isTrue) || (g.Reject == "false" && !isTrue) {
+						okShape = false
+					}
+					continue
+				}
+				if val != nil {
+					okShape = false
+				}
+				val, vb = ed, b.Preds[i]
+			}
+			if okShape && val != nil && vb != nil {
+				c := fi.env.condOf(val)
+				g.Cond = c
+				if g.Reject == "true" {
+					g.RejCond = c
+				} else {
+					g.RejCond = c.Negate()
+				}
+				g.CtxBlock = vb
+			}
+		}
 		fi.guards = append(fi.guards, g)
 	}
 	// context: plain (non-rejecting) branches one of whose edges every path to the guard uses
@@ -736,10 +769,14 @@ func (fi *FuncInfo) collectGuards() {
 			if c.Block.Succs[0] == c.Block.Succs[1] {
 				continue
 			}
-			if edgeDominates(c.Block, c.Block.Succs[0], g.Block) {
+			at := g.Block
+			if g.CtxBlock != nil {
+				at = g.CtxBlock
+			}
+			if edgeDominates(c.Block, c.Block.Succs[0], at) {
 				g.Ctx = append(g.Ctx, c.Cond)
 				g.CtxAway = append(g.CtxAway, [2]*ssa.BasicBlock{c.Block, c.Block.Succs[1]})
-			} else if edgeDominates(c.Block, c.Block.Succs[1], g.Block) {
+			} else if edgeDominates(c.Block, c.Block.Succs[1], at) {
 				g.Ctx = append(g.Ctx, c.Cond.Negate())
 				g.CtxAway = append(g.CtxAway, [2]*ssa.BasicBlock{c.Block, c.Block.Succs[0]})
 			}
@@ -881,6 +918,28 @@ func (p *Prog) FindCalls(fn *ssa.Function, match string, withClosures bool) []*C
 }
 
 func calleeMatches(cs *CallSite, match string) bool {
+	if calleeMatches1(cs, match) {
+		return true
+	}
+	// a call of a helper that is new relative to the reviewed tree counts as the calls it makes
+	if knownFuncs != nil && theProg != nil && cs.Instr != nil && !strings.HasPrefix(match, "=") {
+		if h := cs.Instr.Common().StaticCallee(); h != nil && h.Blocks != nil {
+			if n := theProg.FuncName(h); n != "" && !knownFuncs[n] {
+				for _, hc := range theProg.Calls(h, false) {
+					if calleeMatches1(hc, match) {
+						return true
+					}
+				}
+			}
+		}
+	}
+	return false
+}
+
+// theProg: the program being analysed (one per process), for lookups from plain helper functions.
+var theProg *Prog
+
+func calleeMatches1(cs *CallSite, match string) bool {
 	if strings.HasPrefix(match, ".") {
 		return cs.Method == match[1:]
 	}
